@@ -473,6 +473,7 @@ type FuncContract struct {
 	Uses     []string // named axiom groups this function's proof may use
 	Reveals  []string // opaque predicates whose definition this function's proof may use
 	props    map[string]bool
+	Owned    []string // parameters through which alone their object is reachable (checked: no escape here, owned/local at call sites): unknown calls cannot touch it
 	NoFrame  bool // no frame promise: callers havoc everything; no frame obligations
 	Decreases *Clause
 	Lets     []Param // let name = expr (Type holds the expression source)
@@ -506,7 +507,7 @@ func NewContractSet() *ContractSet {
 }
 
 var clauseKeywords = map[string]bool{"pred": true, "func": true, "requires": true, "ensures": true, "loop": true,
-	"modifies": true, "ufunc": true, "axiom": true, "lemma": true, "noframe": true, "opaque": true, "reveal": true, "uses": true, "protect": true, "protocol-only": true, "deterministic": true, "concurrent": true, "bag": true, "group": true, "include": true, "end": true, "trusted": true, "pure": true, "safe": true, "decreases": true, "let": true, "ghost": true, "init": true, "call": true, "mapupdate": true, "return-ensures": true, "package": true}
+	"modifies": true, "ufunc": true, "axiom": true, "lemma": true, "noframe": true, "owned": true, "opaque": true, "reveal": true, "uses": true, "protect": true, "protocol-only": true, "deterministic": true, "concurrent": true, "bag": true, "group": true, "include": true, "end": true, "trusted": true, "pure": true, "safe": true, "decreases": true, "let": true, "ghost": true, "init": true, "call": true, "mapupdate": true, "return-ensures": true, "package": true}
 
 // ParseContractFile reads the //@ lines of one file.
 func (cs *ContractSet) ParseContractFile(path, pkgPath string) error {
@@ -727,6 +728,8 @@ func (cs *ContractSet) ParseContractFile(path, pkgPath string) error {
 				cur.Trusted = true
 			case "noframe":
 				cur.NoFrame = true
+			case "owned":
+				cur.Owned = append(cur.Owned, fields[1:]...)
 			case "deterministic":
 				// "deterministic" (order discipline under C10) or "deterministic C01 C10" (under the listed properties)
 				cur.Deterministic = true
